@@ -1013,8 +1013,20 @@ impl<R: Read> RdbReader<R> {
     /// Read string
     fn read_string(&mut self) -> Result<Vec<u8>> {
         let len = self.read_length()?;
-        let mut buf = vec![0u8; len];
-        self.read_exact(&mut buf)?;
+        // The length field comes from the file: never allocate it up front (a corrupt
+        // or truncated dump could ask for gigabytes), grow as the bytes actually arrive
+        let mut buf = Vec::new();
+        let mut remaining = len;
+        while remaining > 0 {
+            let mut chunk = vec![0u8; remaining.min(64 * 1024)];
+            self.read_exact(&mut chunk)?;
+            remaining -= chunk.len();
+            if buf.is_empty() {
+                buf = chunk;
+            } else {
+                buf.extend_from_slice(&chunk);
+            }
+        }
         Ok(buf)
     }
     
